@@ -326,4 +326,30 @@ Section Credit.
     - split; [reflexivity|exact I].
     - intros c Hc. discriminate.
   Qed.
+  (* ... and from ANY point of any run: after a history [pre], however long, the publishes that still include the client are at
+     most one (its unanswered request, if it has one) plus the requests of it that are still to be read *)
+  Lemma srun_pres its : forall s,
+    GI s -> k_sync s -> Forall no_push_item its -> Forall k_sync_item its ->
+    GI (fst (srun s its)) /\ k_sync (fst (srun s its)).
+  Proof.
+    induction its as [|it rest IH]; intros s HG Hk Hnp Hks; cbn; [split; assumption|].
+    inversion Hnp as [|? ? Hnp1 Hnp2]; subst. inversion Hks as [|? ? Hks1 Hks2]; subst.
+    destruct (sstep s it) as [s1 o1] eqn:E1.
+    destruct (sstep_credit _ _ _ _ E1 HG Hk Hnp1 Hks1) as (G1 & K1 & _).
+    specialize (IH s1 G1 K1 Hnp2 Hks2). destruct (srun s1 rest) as [s2 o2]. exact IH.
+  Qed.
+
+  Lemma bonus_le_1 s : (bonus s <= 1)%nat.
+  Proof. unfold bonus. destruct (fk (clients s)) as [c|]; [destruct (c_requested c)|]; lia. Qed.
+
+  Theorem sender_stall_bound nout required pre post :
+    Forall no_push_item (pre ++ post) -> Forall k_sync_item (pre ++ post) ->
+    (total_pub (fst (srun (init_sender nout false required) pre)) post <= 1 + total_req post)%nat.
+  Proof.
+    intros Hnp Hks. apply Forall_app in Hnp as [Hnp1 Hnp2]. apply Forall_app in Hks as [Hks1 Hks2].
+    assert (G0 : GI (init_sender nout false required)) by (split; [reflexivity|exact I]).
+    assert (K0 : k_sync (init_sender nout false required)) by (intros c Hc; discriminate).
+    destruct (srun_pres pre _ G0 K0 Hnp1 Hks1) as [G1 K1].
+    pose proof (srun_credit post _ G1 K1 Hnp2 Hks2) as H. pose proof (bonus_le_1 (fst (srun (init_sender nout false required) pre))). lia.
+  Qed.
 End Credit.
